@@ -383,7 +383,8 @@ mutual
     match es with
     | [] => .ok ([], c)
     | (_, key, v) :: rest =>
-      let (o0, c0) := if hasMoreChar32Than key ((LINE : Int) - (c.lastColumn + 4)) then writeNewline c else ([], c)
+      -- "start a new line unless the key certainly fits … with the preceding space, the widest delimiters and its colon"
+      let (o0, c0) := if (key.length : Int) > (LINE : Int) - (c.lastColumn + 8) then writeNewline c else ([], c)
       let c1 := { c0 with separateValues := false }
       let (o1, c2) := ensureSpaced c1
       andThen (.ok (o0 ++ o1, c2)) fun c2 =>
